@@ -32,10 +32,19 @@
         no constructor; what it contributes is the ordered-choice side condition of At_char: without u a unit is an
         ExtendedPatternCharacter only where InvalidBracedQuantifier does not match (it can only match at a `{`).
      ExtendedAtom    :: ... | `\` [lookahead = c]      (the backslash alone, where `\` AtomEscape does not match: At_backslash_c)
-     AtomEscape[U]   :: CharacterClassEscape | CharacterEscape[?U]          (no DecimalEscape, no `k` GroupName)
+     AtomEscape[U]   :: DecimalEscape | CharacterClassEscape | CharacterEscape[?U]          (no `k` GroupName)
+        early error:    DecimalEscape whose CapturingGroupNumber is larger than NcapturingParens (the number of
+                        `(` GroupSpecifier Disjunction `)` atoms of the whole pattern)
+        Annex B [~U]:   DecimalEscape but only if its CapturingGroupNumber is <= NcapturingParens
+        (one constructor AE_decimal for both; the predicates carry NcapturingParens of the whole pattern as the
+        parameter np and count the capturing groups of the derivation in their last index)
+     DecimalEscape   :: NonZeroDigit DecimalDigits(opt) [lookahead not a DecimalDigit]
      CharacterClassEscape :: one of d D s S w W                             (no property escapes)
      CharacterEscape[U]   :: ControlEscape | `c` ControlLetter | `0` [lookahead not a DecimalDigit] | HexEscapeSequence
-                           | RegExpUnicodeEscapeSequence[?U] | IdentityEscape[?U]        (no LegacyOctalEscapeSequence yet)
+                           | RegExpUnicodeEscapeSequence[?U] | [~U] LegacyOctalEscapeSequence | IdentityEscape[?U]
+     LegacyOctalEscapeSequence :: `0` [lookahead 8 or 9] | NonZeroOctalDigit [lookahead not an OctalDigit]
+                           | ZeroToThree OctalDigit [lookahead not an OctalDigit] | FourToSeven OctalDigit
+                           | ZeroToThree OctalDigit OctalDigit
      ControlEscape   :: one of f n r t v
      ControlLetter   :: one of a-z A-Z
      HexEscapeSequence :: `x` HexDigit HexDigit
@@ -48,16 +57,18 @@
      IdentityEscape[U] :: [+U] SyntaxCharacter | [+U] `/`
         Annex B [~U]:   SourceCharacterIdentityEscape[~N] :: SourceCharacter but not `c`
                         (without u the fragment has no group names, so the [N] parameter is absent)
-        Annex B ordered choice: without u IdentityEscape is considered only where the earlier alternatives of CharacterEscape
-        do not match: not `0`, not `x` before two hex digits, not `u` before four hex digits (side condition of CE_identity;
-        for the other overlaps -- d, f, ... -- both alternatives match the same text)
+        Annex B ordered choice: without u CharacterEscape is considered only where DecimalEscape (with its "but only if")
+        does not match (side condition of CE_legacy_octal and CE_identity: a digit escape is a back-reference whenever it
+        can be), and IdentityEscape only where the earlier alternatives of CharacterEscape do not match: not an octal
+        digit, not `x` before two hex digits, not `u` before four hex digits (side condition of CE_identity; for the other
+        overlaps -- d, f, ... -- both alternatives match the same text)
      Annex B resolves its ambiguities by the order of the alternatives: backslash-b and backslash-B are matched by
      Assertion, which precedes ExtendedAtom in Term, so they are never atoms (side condition of At_escape).
      SyntaxCharacter :: one of ^ $ \ . * + ? ( ) [ ] { } |
      PatternCharacter:: SourceCharacter but not SyntaxCharacter
      ExtendedPatternCharacter :: SourceCharacter but not one of ^ $ \ . * + ? ( ) [ |
-   Early errors of the fragment: the two above (bounds out of order; InvalidBracedQuantifier); the CodePoint bound is part
-   of the production. *)
+   Early errors of the fragment: the three above (bounds out of order; InvalidBracedQuantifier; DecimalEscape beyond the
+   number of groups); the CodePoint bound is part of the production.  Not stated: "NcapturingParens >= 2^32 - 1" (Pattern). *)
 From Coq Require Import List NArith Bool.
 Import ListNotations.
 Open Scope N_scope.
@@ -121,23 +132,46 @@ Inductive RegExpUnicodeEscapeSequence (u : bool) : list N -> list N -> Prop :=
 | UE_code_point ds v r : u = true -> HexDigits ds v -> v <= 1114111 ->
     RegExpUnicodeEscapeSequence u (117 :: g_lbrace :: ds ++ [g_rbrace]) r.
 
+(* DecimalEscape with its CapturingGroupNumber *)
+Definition non_zero_digit (c : N) : bool := (49 <=? c) && (c <=? 57).
+Definition no_digit_follows (r : list N) : Prop := match r with d :: _ => decimal_digit d = false | [] => True end.
+Inductive DecimalEscape : list N -> N -> list N -> Prop :=
+| DE_digits d ds v r : non_zero_digit d = true -> DecimalDigits (d :: ds) v -> no_digit_follows r -> DecimalEscape (d :: ds) v r.
+(* DecimalEscape (Annex B: with its "but only if") matches at the units l *)
+Definition decimal_escape_matches (np : N) (l : list N) : Prop :=
+  exists ds v r, DecimalEscape ds v r /\ v <= np /\ l = ds ++ r.
+
+Definition octal_digit (c : N) : bool := (48 <=? c) && (c <=? 55).
+Definition no_octal_follows (r : list N) : Prop := match r with d :: _ => octal_digit d = false | [] => True end.
+Definition zero_to_three (c : N) : bool := (48 <=? c) && (c <=? 51).
+Definition four_to_seven (c : N) : bool := (52 <=? c) && (c <=? 55).
+Inductive LegacyOctalEscapeSequence : list N -> list N -> Prop :=
+| LO_zero d r : (d = 56 \/ d = 57) -> LegacyOctalEscapeSequence [48] (d :: r)
+| LO_one a r : octal_digit a = true -> a <> 48 -> no_octal_follows r -> LegacyOctalEscapeSequence [a] r
+| LO_two_low a b r : zero_to_three a = true -> octal_digit b = true -> no_octal_follows r -> LegacyOctalEscapeSequence [a; b] r
+| LO_two_high a b r : four_to_seven a = true -> octal_digit b = true -> LegacyOctalEscapeSequence [a; b] r
+| LO_three a b c r : zero_to_three a = true -> octal_digit b = true -> octal_digit c = true -> LegacyOctalEscapeSequence [a; b; c] r.
+
 (* Annex B ordered choice: an alternative of CharacterEscape before IdentityEscape matches at the unit c followed by r,
    and matches a different text than the unit c alone *)
 Definition earlier_escape_matches (c : N) (r : list N) : Prop :=
-  c = 48 \/
+  octal_digit c = true \/
   (c = 120 /\ exists h1 h2 r', hex_digit h1 = true /\ hex_digit h2 = true /\ r = h1 :: h2 :: r') \/
   (c = 117 /\ exists hs v r', Hex4Digits hs v /\ r = hs ++ r').
-Definition no_digit_follows (r : list N) : Prop := match r with d :: _ => decimal_digit d = false | [] => True end.
-Inductive CharacterEscape (u : bool) : list N -> list N -> Prop :=
-| CE_control c r : control_escape c = true -> CharacterEscape u [c] r
-| CE_letter c r : control_letter c = true -> CharacterEscape u [99; c] r
-| CE_zero r : no_digit_follows r -> CharacterEscape u [48] r
-| CE_hex h1 h2 r : hex_digit h1 = true -> hex_digit h2 = true -> CharacterEscape u [120; h1; h2] r
-| CE_unicode w r : RegExpUnicodeEscapeSequence u w r -> CharacterEscape u w r
-| CE_identity c r : identity_escape u c = true -> (u = false -> ~ earlier_escape_matches c r) -> CharacterEscape u [c] r.
-Inductive AtomEscape (u : bool) : list N -> list N -> Prop :=
-| AE_class c r : character_class_escape c = true -> AtomEscape u [c] r
-| AE_character w r : CharacterEscape u w r -> AtomEscape u w r.
+Inductive CharacterEscape (u : bool) (np : N) : list N -> list N -> Prop :=
+| CE_control c r : control_escape c = true -> CharacterEscape u np [c] r
+| CE_letter c r : control_letter c = true -> CharacterEscape u np [99; c] r
+| CE_zero r : no_digit_follows r -> CharacterEscape u np [48] r
+| CE_hex h1 h2 r : hex_digit h1 = true -> hex_digit h2 = true -> CharacterEscape u np [120; h1; h2] r
+| CE_unicode w r : RegExpUnicodeEscapeSequence u w r -> CharacterEscape u np w r
+| CE_legacy_octal w r : u = false -> LegacyOctalEscapeSequence w r -> ~ decimal_escape_matches np (w ++ r) ->
+    CharacterEscape u np w r
+| CE_identity c r : identity_escape u c = true ->
+    (u = false -> ~ earlier_escape_matches c r /\ ~ decimal_escape_matches np (c :: r)) -> CharacterEscape u np [c] r.
+Inductive AtomEscape (u : bool) (np : N) : list N -> list N -> Prop :=
+| AE_decimal ds v r : DecimalEscape ds v r -> v <= np -> AtomEscape u np ds r
+| AE_class c r : character_class_escape c = true -> AtomEscape u np [c] r
+| AE_character w r : CharacterEscape u np w r -> AtomEscape u np w r.
 
 Inductive QuantifierPrefix : list N -> Prop :=
 | QP_star : QuantifierPrefix [g_star]
@@ -148,44 +182,49 @@ Inductive Quantifier : list N -> Prop :=
 | Q_greedy p : QuantifierPrefix p -> Quantifier p
 | Q_lazy p : QuantifierPrefix p -> Quantifier (p ++ [g_question]).
 
-Inductive Disjunction (u : bool) : list N -> list N -> Prop :=
-| D_alt a r : Alternative u a r -> Disjunction u a r
-| D_bar a d r : Alternative u a (g_bar :: d ++ r) -> Disjunction u d r -> Disjunction u (a ++ g_bar :: d) r
-with Alternative (u : bool) : list N -> list N -> Prop :=
-| A_empty r : Alternative u [] r
-| A_term a t r : Alternative u a (t ++ r) -> Term u t r -> Alternative u (a ++ t) r
-with Term (u : bool) : list N -> list N -> Prop :=
-| T_assertion a r : Assertion u a r -> Term u a r
-| T_qassertion_quant a q r : u = false -> QuantifiableAssertion u a (q ++ r) -> Quantifier q -> Term u (a ++ q) r   (* Annex B *)
-| T_atom a r : Atom u a r -> Term u a r
-| T_atom_quant a q r : Atom u a (q ++ r) -> Quantifier q -> Term u (a ++ q) r
-with Assertion (u : bool) : list N -> list N -> Prop :=
-| As_caret r : Assertion u [g_caret] r
-| As_dollar r : Assertion u [g_dollar] r
-| As_word_boundary r : Assertion u [g_backslash; 98] r
-| As_not_word_boundary r : Assertion u [g_backslash; 66] r
-| As_lookahead a r : QuantifiableAssertion u a r -> Assertion u a r
-| As_lookbehind d r : Disjunction u d (g_rparen :: r) ->
-    Assertion u (g_lparen :: g_question :: g_less :: g_equals :: d ++ [g_rparen]) r
-| As_neg_lookbehind d r : Disjunction u d (g_rparen :: r) ->
-    Assertion u (g_lparen :: g_question :: g_less :: g_bang :: d ++ [g_rparen]) r
-with QuantifiableAssertion (u : bool) : list N -> list N -> Prop :=   (* the two look-aheads *)
-| QA_lookahead d r : Disjunction u d (g_rparen :: r) ->
-    QuantifiableAssertion u (g_lparen :: g_question :: g_equals :: d ++ [g_rparen]) r
-| QA_neg_lookahead d r : Disjunction u d (g_rparen :: r) ->
-    QuantifiableAssertion u (g_lparen :: g_question :: g_bang :: d ++ [g_rparen]) r
-with Atom (u : bool) : list N -> list N -> Prop :=
+(* np = NcapturingParens of the whole pattern; the last index = the number of capturing groups of the construct *)
+Inductive Disjunction (u : bool) (np : N) : list N -> list N -> N -> Prop :=
+| D_alt a r k : Alternative u np a r k -> Disjunction u np a r k
+| D_bar a d r k1 k2 : Alternative u np a (g_bar :: d ++ r) k1 -> Disjunction u np d r k2 ->
+    Disjunction u np (a ++ g_bar :: d) r (k1 + k2)
+with Alternative (u : bool) (np : N) : list N -> list N -> N -> Prop :=
+| A_empty r : Alternative u np [] r 0
+| A_term a t r k1 k2 : Alternative u np a (t ++ r) k1 -> Term u np t r k2 -> Alternative u np (a ++ t) r (k1 + k2)
+with Term (u : bool) (np : N) : list N -> list N -> N -> Prop :=
+| T_assertion a r k : Assertion u np a r k -> Term u np a r k
+| T_qassertion_quant a q r k : u = false -> QuantifiableAssertion u np a (q ++ r) k -> Quantifier q ->
+    Term u np (a ++ q) r k                                                                        (* Annex B *)
+| T_atom a r k : Atom u np a r k -> Term u np a r k
+| T_atom_quant a q r k : Atom u np a (q ++ r) k -> Quantifier q -> Term u np (a ++ q) r k
+with Assertion (u : bool) (np : N) : list N -> list N -> N -> Prop :=
+| As_caret r : Assertion u np [g_caret] r 0
+| As_dollar r : Assertion u np [g_dollar] r 0
+| As_word_boundary r : Assertion u np [g_backslash; 98] r 0
+| As_not_word_boundary r : Assertion u np [g_backslash; 66] r 0
+| As_lookahead a r k : QuantifiableAssertion u np a r k -> Assertion u np a r k
+| As_lookbehind d r k : Disjunction u np d (g_rparen :: r) k ->
+    Assertion u np (g_lparen :: g_question :: g_less :: g_equals :: d ++ [g_rparen]) r k
+| As_neg_lookbehind d r k : Disjunction u np d (g_rparen :: r) k ->
+    Assertion u np (g_lparen :: g_question :: g_less :: g_bang :: d ++ [g_rparen]) r k
+with QuantifiableAssertion (u : bool) (np : N) : list N -> list N -> N -> Prop :=   (* the two look-aheads *)
+| QA_lookahead d r k : Disjunction u np d (g_rparen :: r) k ->
+    QuantifiableAssertion u np (g_lparen :: g_question :: g_equals :: d ++ [g_rparen]) r k
+| QA_neg_lookahead d r k : Disjunction u np d (g_rparen :: r) k ->
+    QuantifiableAssertion u np (g_lparen :: g_question :: g_bang :: d ++ [g_rparen]) r k
+with Atom (u : bool) (np : N) : list N -> list N -> N -> Prop :=
 | At_char c r : pattern_char u c = true ->
     (* Annex B: ExtendedPatternCharacter is tried after InvalidBracedQuantifier *)
-    (u = false -> forall q r', InvalidBracedQuantifier q -> c :: r <> q ++ r') -> Atom u [c] r
-| At_dot r : Atom u [g_dot] r
-| At_escape w r : AtomEscape u w r -> (forall c, w = [c] -> assertion_escape c = false) -> Atom u (g_backslash :: w) r
+    (u = false -> forall q r', InvalidBracedQuantifier q -> c :: r <> q ++ r') -> Atom u np [c] r 0
+| At_dot r : Atom u np [g_dot] r 0
+| At_escape w r : AtomEscape u np w r -> (forall c, w = [c] -> assertion_escape c = false) -> Atom u np (g_backslash :: w) r 0
 | At_backslash_c r : u = false ->     (* Annex B: `\` [lookahead = c], tried after `\` AtomEscape (`c` ControlLetter) *)
-    match r with c :: _ => control_letter c = false | [] => True end -> Atom u [g_backslash] (99 :: r)
-| At_group d r : Disjunction u d (g_rparen :: r) -> Atom u (g_lparen :: d ++ [g_rparen]) r
-| At_noncapturing d r : Disjunction u d (g_rparen :: r) -> Atom u (g_lparen :: g_question :: g_colon :: d ++ [g_rparen]) r.
+    match r with c :: _ => control_letter c = false | [] => True end -> Atom u np [g_backslash] (99 :: r) 0
+| At_group d r k : Disjunction u np d (g_rparen :: r) k -> Atom u np (g_lparen :: d ++ [g_rparen]) r (1 + k)
+| At_noncapturing d r k : Disjunction u np d (g_rparen :: r) k ->
+    Atom u np (g_lparen :: g_question :: g_colon :: d ++ [g_rparen]) r k.
 
-Definition Pattern (u : bool) (s : list N) : Prop := Disjunction u s [].
+(* a Pattern: a Disjunction whose NcapturingParens is the number of its capturing groups *)
+Definition Pattern (u : bool) (s : list N) : Prop := exists k, Disjunction u k s [] k.
 
 Scheme Disjunction_mind := Minimality for Disjunction Sort Prop
   with Alternative_mind := Minimality for Alternative Sort Prop
